@@ -1,8 +1,9 @@
+\* baseline (code since 5457c02: oci-layout written only when missing/unreadable, temp + rename): 61 scenarios, crash ANYWHERE + retry
 CONSTANTS
  Scenarios <- Quick
  MaxCrash = 1
- MarkerMode = "rewrite"
- MarkerWindow = FALSE
+ MarkerMode = "ifbad"
+ MarkerWindow = TRUE
 INIT Init
 NEXT Next
 INVARIANTS TypeOK NoStuck CrashStateOK ReturnOK RetryOK
